@@ -900,9 +900,9 @@ def index_diff_class(want, got):
         if w == g:
             continue
         if g is None:
-            return "entry-missing(%s)" % ent_kind(w), p
+            return "entry-missing", p
         if w is None:
-            return "entry-not-removed(%s)" % ent_kind(g), p
+            return "entry-not-removed", p
         return "entry-wrong(%s,expected-%s)" % (diff_class(w, g), ent_kind(w)), p
     return None, None
 
@@ -981,7 +981,7 @@ def run_edits(acc, sid, ops, use_git, judge_last=True, expect_key=None):
                     raise HarnessError("a harness edit changed the index?! %s" % desc)
                 pk = "path-is-%s" % wd_kind(st.wd, st.index, op[1] if len(op) > 1 else p)
                 nc = name_class(p)
-                acc.violation("%s:index-differs-from-model:%s:%s%s" % (where, cls, pk, "" if nc == "plain" else ",name=" + nc),
+                acc.violation("%s:index-wrong:%s:%s%s" % (where, cls, pk, "" if nc == "plain" else ",name=" + nc),
                               "%s: index entry %s is %r, expected %r (index now %s)" % (desc, _pn(p), idx.get(p), new.index.get(p), [_pn(x) for x in sorted(idx)]), rpl)
                 # model and implementation have diverged: one root cause, one key; successors are not explored
                 return None
@@ -1094,7 +1094,7 @@ def universes(thorough):
     """Lists of trees; all ordered pairs inside each list are explored."""
     us = []
     if thorough:
-        sa, sd = SLOT_A, SLOT_D
+        sa, sd = SLOT_A, SLOT_D + [((b"d", "PX"),)]  # + executable `d`: exec <-> directory
     else:
         sa = [s for s in SLOT_A if not s or s[0][1] in ("X", "P", "Q", "PX", "L")]
         sd = [s for s in SLOT_D if s != ((b"d/x", "Y"),) and len(s) < 2] + [((b"d/x", "X"), (b"d/y", "P"))]
